@@ -18,5 +18,6 @@ CHECKS = {
     "C18": {"level": E, "units": [go("TestC18Samples", 1, 1, netns=False, shards={"quick": 1, "thorough": 1}), go("TestC18", 60000, 4000000, netns=False)]},
     "C19": {"level": E, "units": [go("TestC19", 6000, 300000)]},
     "C03": {"level": E, "units": [go("TestC03", 2000, 60000)]},
+    "C09": {"level": E, "units": [go("TestC09", 4000, 150000)]},
     "C02": {"level": E, "units": [go("TestC02", 1600, 60000)]},
 }
